@@ -465,6 +465,8 @@ func (cs *clientStream) doHttpCall(transport http.RoundTripper, req *http.Reques
 	// readFailed is set when rErr (or cs.rErr) is what a read of the reply
 	// body returned, as opposed to an error this function made itself
 	readFailed := false
+	// ownErr is set when cs.rErr is an error this function put there
+	ownErr := false
 
 	// The rest of the reply body is drained only after the stream has been
 	// marked done (this runs last). Draining first, with rMu still held, can
@@ -497,10 +499,14 @@ func (cs *clientStream) doHttpCall(transport http.RoundTripper, req *http.Reques
 		}
 		defer cs.rMu.Unlock()
 
+		// (an error that RecvMsg has stored meanwhile - it does so, and then
+		// cancels, when a single-response method sends a second message - is
+		// the call's outcome and stays)
 		if rErr != nil && cs.rErr == nil {
 			cs.rErr = rErr
+			ownErr = true
 		}
-		if cs.rErr != nil {
+		if cs.rErr != nil && ownErr {
 			if ctxErr := cs.ctx.Err(); ctxErr != nil {
 				if _, ok := status.FromError(cs.rErr); !ok || readFailed {
 					// reading the reply failed because the RPC was cancelled
@@ -601,12 +607,16 @@ func (cs *clientStream) doHttpCall(transport http.RoundTripper, req *http.Reques
 			// final message is a trailer (need lock to write to cs.tr)
 			cs.rMu.Lock()
 			rMuHeld = true // defer above will unlock for us
-			cs.rErr = readProtoMessage(reply.Body, cs.codec, int32(-sz), &cs.tr)
-			if cs.rErr != nil {
+			trErr := readProtoMessage(reply.Body, cs.codec, int32(-sz), &cs.tr)
+			if trErr != nil {
 				readFailed = true
-				if cs.rErr == io.EOF {
-					cs.rErr = io.ErrUnexpectedEOF
+				if trErr == io.EOF {
+					trErr = io.ErrUnexpectedEOF
 				}
+			}
+			if cs.rErr == nil && trErr != nil {
+				cs.rErr = trErr
+				ownErr = true
 			}
 			if len(cs.tr.Metadata) > 0 && len(cs.copts.Trailers) > 0 {
 				cs.copts.SetTrailers(metadataFromProto(cs.tr.Metadata))
